@@ -4,7 +4,7 @@
 //! delayed-drop checkouts) only run at the `run` op (current-thread runtime, paused clock).
 //!
 //! line: `pool <idleTimeoutMs|-> <maxIdle> <cap 0|1> ; <op> ; <op> …`
-//!   idleTimeout: `-` none, `<ms>`, or `u<µs>` (a timeout below one millisecond)
+//!   idleTimeout: `-` none, `<ms>`, `u<µs>` (a timeout below one millisecond), or `max` (`Duration::MAX`)
 //!   op: `i r k mux` issue | `p r` poll | `c r` cancel | `d r ok0|ok1|okp|fc|fh` dial outcome (okp: the protocol
 //!       comes back with a connection that cannot be shared, whatever the request asked for) | `f r` the response
 //!       arrives | `cr c` connection ready again | `cc c` peer closes connection | `ce c` a released, still busy connection's
@@ -256,7 +256,8 @@ impl Session {
         let mut pc = hyperdriver::client::pool::Config::default();
         pc.idle_timeout = match cfg[0].strip_prefix('u') {
             Some(us) => us.parse::<u64>().ok().map(std::time::Duration::from_micros),
-            None => cfg[0].parse::<u64>().ok().map(std::time::Duration::from_millis),
+            // `max`: "never", spelt as the longest duration there is
+            None => if cfg[0] == "max" { Some(std::time::Duration::MAX) } else { cfg[0].parse::<u64>().ok().map(std::time::Duration::from_millis) },
         };
         pc.max_idle_per_host = cfg[1].parse().unwrap_or(32);
         pc.continue_after_preemption = cfg[2] == "1";
@@ -287,9 +288,11 @@ impl Session {
                               else { format!("{}://n{k}.example/r{r}", if r % 2 == 0 { "http" } else { "HTTP" }) };
                     let request = http::Request::builder().uri(uri).version(if mux { http::Version::HTTP_2 } else { http::Version::HTTP_11 })
                         .header("x-req", r.to_string()).body(Body::empty()).unwrap();
-                    let fut: Fut = Box::pin(self.svc.call(request));
-                    self.reqs.insert(r, Req { fut: Some(fut), status: Status::Checkout, flag: Arc::new(WakeFlag(AtomicBool::new(false))) });
-                    "D".into()
+                    // (the checkout is created here: the idle list is looked at already)
+                    match std::panic::catch_unwind(std::panic::AssertUnwindSafe(|| -> Fut { Box::pin(self.svc.call(request)) })) {
+                        Ok(fut) => { self.reqs.insert(r, Req { fut: Some(fut), status: Status::Checkout, flag: Arc::new(WakeFlag(AtomicBool::new(false))) }); "D".into() }
+                        Err(_) => "X".into(),
+                    }
                 }
             }
             "p" => {
@@ -704,7 +707,7 @@ fn gen_busy_past_timeout(r: &mut Rng) -> String {
 fn gen_mode(r: &mut Rng, _i: u64, timed: bool) -> String {
     // lazy mode: freshly issued requests are polled reluctantly and cancelled eagerly, few origins, small idle limit
     let lazy = !timed && r.chance(1, 5);
-    let idle = if timed { "50".to_string() } else if r.chance(1, 4) { "0".to_string() } else if r.chance(1, 3) { "600000".to_string() } else { "-".to_string() };
+    let idle = if timed { "50".to_string() } else if r.chance(1, 4) { "0".to_string() } else if r.chance(1, 3) { "600000".to_string() } else if r.chance(1, 5) { "max".to_string() } else { "-".to_string() };
     let max_idle = if timed { *r.pick(&[2u64, 3, 32]) } else if lazy { *r.pick(&[1u64, 1, 2]) } else { *r.pick(&[0u64, 1, 1, 2, 3, 32, 32]) };
     let cap = r.chance(1, 2) as u8;
     let lax = r.chance(1, 4) as u8;
